@@ -627,6 +627,11 @@ def def_reexam(ctx):
         else:
             starts = [n for g in grow for n in it.succs[g]]
             ok, site, why = _reexam_ok(facts, it, r, rc, starts)
+            if not ok and why != 'never' and r.get('deferred'):
+                # `if !self.deferred.is_empty() { self.apply_deferred() }`: with nothing pending there is nothing to re-examine
+                rc_ne, _ = _gate_eval(ctx, body, op_adt, v, LT, [], extra_atom=emptiness_atom({'pend_empty': (1, (r['deferred'],))}),
+                                      extra_asm={'pend_empty': False})
+                ok, site, why = _reexam_ok(facts, it, r, rc_ne, starts)
             if ok:
                 ctx.ok(name, body, 're-examination follows clock growth on every path', line=block_line(it, site))
             elif why == 'never':
@@ -646,6 +651,9 @@ def def_reexam(ctx):
         else:
             starts = [n for g in grow for n in it.succs[g]]
             ok, site, why = _reexam_ok(facts, it, r, rc, starts)
+            if not ok and why != 'never' and r.get('deferred'):
+                rc_ne = Reach(facts, body, Evaluator(facts, bool_atom=emptiness_atom({'pend_empty': (1, (r['deferred'],))}), assumption={'pend_empty': False}))
+                ok, site, why = _reexam_ok(facts, it, r, rc_ne, starts)
             if ok:
                 ctx.ok(name, body, 're-examination follows the clock join on every path', line=block_line(it, site))
             elif why == 'never':
